@@ -176,7 +176,7 @@ let () =
             match kd with
             | "P" -> sample_planck o (get_tab "Pcdf") (get_tab "Plogcdf") (get_tab "Plogfreq") x
             | "Q" -> sample_linear o (get_tab "Qfreq") (get_tab "Qcdf") x
-            | _ -> sample_lyman o (get_tab (kd ^ "freq")) (get_tab (kd ^ "temp")) (get_cdfs kd) t x
+            | _ -> sample_lyman o gen_lyman_clamps (get_tab (kd ^ "freq")) (get_tab (kd ^ "temp")) (get_cdfs kd) t x
           in
           Printf.printf "S %s\n" (hexo r)
       | [ "" ] -> ()
